@@ -1,0 +1,18 @@
+//go:build verif
+
+// Contracts for the deductive verifier in /verif (govc); comments only.
+package csrand
+
+//@ func IntRange(min, max) (ret)
+//@   serves C12 C10
+//@   opt wrapping_conversions
+//@   panics_if max < min
+//@   ensures [C12:in_range] min <= ret && ret <= max
+
+//@ func Intn(n) (ret)
+//@   serves C12
+//@   panics_if n <= 0
+//@   ensures [C12:intn_range] 0 <= ret && ret < n
+
+//@ func Float64() (ret)
+//@   serves C12
